@@ -808,9 +808,9 @@ STATUS_ODD_STRS = ['200', 'abc', 'abc def', '99 Low', '1000 High', ' ', '', '200
                    '2_0_0 OK', '200\tOK x', '200 OK\r\nX: y', '-200 OK', '20 0 OK', '200\xa0OK z']
 
 
-# error handlers that annotate the error object they are handed: on /repo d1483c6 that object is the
-# process-wide errors_map singleton (finding E, reported); switched on once the decision is in
-MUTATING_ERRH = [False]
+# error handlers that annotate the error object they are handed (finding E: it used to be the
+# process-wide errors_map singleton; `_raise` now raises a per-request copy)
+MUTATING_ERRH = [True]
 
 
 class Gen:
